@@ -33,6 +33,11 @@ fn main() {
         }
         i += 1;
     }
+    if id == "C15-CHILD" {
+        ev::install_quiet_panic_hook();
+        checks::c15::child_main();
+        return;
+    }
     if id == "C10-REGEN-GOLDEN" {
         checks::c10::regen_golden();
         return;
@@ -67,6 +72,7 @@ fn main() {
         "C12" => c12,
         "C13" => c13,
         "C14" => c14,
+        "C15" => c15,
         "C16" => c16,
         "C17" => c17,
         "C18" => c18,
